@@ -11,7 +11,7 @@ from pysmt.environment import Environment, push_env, pop_env
 from .termio import BOOL, INT, REAL, mk_type, sort_of, sort_str
 
 UNIVERSE_SYMS = {"a": BOOL, "b": BOOL, "x": INT, "y": INT, "r": REAL, "u": ("BV", 2),
-                 "f": ("Fun", INT, (INT,))}
+                 "f": ("Fun", INT, (INT,)), "st": "String", "A": ("Array", INT, INT)}
 FRESH_RE = re.compile(r"^(FV|ack|__x|\.def_|_assertion_|x!)(\d+)$")
 
 COMMUTATIVE = {op.AND, op.OR, op.PLUS, op.TIMES, op.IFF, op.EQUALS, op.BV_AND, op.BV_OR, op.BV_XOR,
@@ -34,6 +34,10 @@ def build_universe(env):
     F["F8"] = m.Equals(m.Function(f, [x]), y)
     F["F9"] = m.And(F["F3"], F["F2"], m.Not(F["F1"]))
     F["F10"] = m.LE(m.ToReal(x), m.Plus(r, m.Real(Fraction(1, 2))))
+    st, A = S["st"], S["A"]
+    F["F11"] = m.Equals(m.StrLength(st), x)
+    F["F12"] = m.StrContains(st, m.String("a"))
+    F["F13"] = m.Equals(m.Select(m.Store(A, x, m.Int(1)), y), m.Select(A, y))
     return S, F
 
 
